@@ -25,7 +25,9 @@ KEYS = ("connect", "read", "write", "pool")
 SHAPES = ("get", "post3", "stream", "postbig")
 from ..topo import REFUSALS  # noqa: E402
 
-KIND_LIST = [k for k in KINDS if k not in ("direct-h2-fallback-h1", "forward-auth") and k not in REFUSALS]
+from ..topo import UDS_KINDS  # noqa: E402
+
+KIND_LIST = [k for k in KINDS if k not in ("direct-h2-fallback-h1", "forward-auth") and k not in REFUSALS] + list(UDS_KINDS)
 
 
 def tdict(combo, values):
